@@ -69,6 +69,7 @@ def model_summary(shx):
     views = {'attributes': attrs, 'has_element': [shx.sfac_table.has_element(e) for e in shx.sfac_table.elements_list], 'sum_formula': shx.sum_formula.upper(),
              'sum_formula_exact': shx.sum_formula_exact.upper(), 'elements_of_atoms': [a.element.upper() for a in shx.atoms.all_atoms],
              # the residuals SHELXL leaves in REM lines are part of the model the library builds
+             'dsr_commands': [' '.join(str(l_).upper().split()) for l_ in getattr(shx, 'dsrlines', [])],
              'residuals': [getattr(shx, k_, None) for k_ in ('R1', 'wr2', 'goof', 'rgoof', 'highest_peak', 'deepest_hole', 'data', 'parameters', 'num_restraints')]}
     # the diagnostics of the restraint check are part of the model as well (names compared case-insensitively)
     import re as _re
@@ -104,12 +105,57 @@ def expected_atoms(gf):
     return [(a['name'].upper(), a['sfac'], tuple(round(x, 9) for x in a['xyz']), a['qpeak']) for a in gf['atoms']]
 
 
+SMALL = ['TITL small', 'CELL 0.71073 10.5 11.2 12.3 90 95.5 90', 'ZERR 4 0.001 0.002 0.003 0 0.02 0', 'LATT 1', 'SYMM -X, 1/2+Y, 1/2-Z', 'SFAC C O', 'UNIT 8 4',
+         'L.S. 4', 'FVAR 1.0', 'C1 1 0.1 0.2 0.3 11.0 0.04', 'O1 2 0.2 0.3 0.4 11.0 0.05', 'HKLF 4', 'END']
+
+
+def small_files_from_disk(ctx):
+    """the layout transformations on files of a few lines, read with read_file(): the number of physical lines is no content"""
+    import os, shutil, tempfile
+    rng = ctx.rng
+    ev = 0
+    d = tempfile.mkdtemp(prefix='verif-c05-')
+    try:
+        for k in range(6):
+            body = list(SMALL)
+            for _ in range(rng.randint(0, 4)):
+                body.insert(9, '%s%d 1 %.4f %.4f %.4f 11.0 0.04' % ('C', 2 + _, rng.random(), rng.random(), rng.random()))
+            p0 = os.path.join(d, 'plain.res')
+            open(p0, 'w').write('\n'.join(body) + '\n')
+            st0, in0, shx0 = im.read_text(None, 'quiet', path=p0)
+            base = model_summary(shx0)
+            for v in range(3):
+                lines = []
+                for l in body:
+                    if rng.random() < 0.5:
+                        lines += rng.choice([[''], ['   an indented comment line'], ['', ''], ['REM a remark']][:3])
+                    lines.append(l if rng.random() < 0.5 else l.replace(' ', '   '))
+                lines += [''] * rng.randint(0, 12)
+                p1 = os.path.join(d, 'wild.res')
+                open(p1, 'w').write('\n'.join(lines) + '\n')
+                st, inn, shx = im.read_text(None, 'quiet', path=p1)
+                ev += 1
+                m = model_summary(shx)
+                natoms = len(body) - len(SMALL) + 2
+                if st0 != 'ok' or in0 or len(base['atoms']) != natoms:
+                    common.add_violation(ctx, 'a valid file of a few lines, read with read_file(), does not give its atoms', {'text': '\n'.join(body) + '\n'}, natoms, len(base['atoms']))
+                    break
+                if st != 'ok' or inn or m != base:
+                    diff = [key for key in base if m.get(key) != base[key]]
+                    common.add_violation(ctx, 'a different layout (blank lines, comment lines, white space) of a small file read with read_file() gives a different model',
+                                         {'plain': '\n'.join(body) + '\n', 'text': '\n'.join(lines) + '\n'}, 'same model', {'status': st, 'inner': inn, 'differs_in': diff})
+                    break
+    finally:
+        shutil.rmtree(d, ignore_errors=True)
+    return ev
+
+
 def run(ctx):
     common.check_obligations(ctx, THEOREMS)
     rng = ctx.rng
     nfiles = 3000 if ctx.thorough() else 60
     nvar = 12 if ctx.thorough() else 5
-    ev = 0
+    ev = small_files_from_disk(ctx)
     shards = []
     meta = []
     for k in range(nfiles):
